@@ -11,6 +11,8 @@ pub const TAIL_ALPHABET: [u8; 8] = [0x00, 0x01, 0x0A, 0x5C, 0x80, 0xC3, 0xFE, 0x
 /// a valid two-byte UTF-8 character, written over two bytes at every offset (byte-indexed string slicing)
 pub const UTF8_PAIR: [u8; 2] = [0xC3, 0xA9];
 pub const TEXT_NUMBERS: [&str; 9] = ["", "0", "1", "-1", "256", "65536", "4294967296", "99999999999999999999", "x"];
+/// every decimal number of the datagram replaced by the same value at once (fields that only bound each other)
+pub const ALL_TEXT_NUMBERS: [&str; 4] = ["65536", "1000000", "4294967296", "99999999999999999999"];
 pub const MAX_DATAGRAM: usize = 65_507;
 
 #[derive(Clone, Copy, Debug, PartialEq, Eq)]
@@ -570,7 +572,12 @@ impl<'a> Menu<'a> {
                     subst: len * SUBST.len(),
                     utf8: len.saturating_sub(1),
                     wide: if self.wide { len * WIDE.len() } else { 0 },
-                    textnum: if has && is_text_family(self.f) { digit_runs(self.d.unwrap()).len() * TEXT_NUMBERS.len() } else { 0 },
+                    textnum: if has && is_text_family(self.f) {
+                        let runs = digit_runs(self.d.unwrap()).len();
+                        runs * TEXT_NUMBERS.len() + if runs > 1 { ALL_TEXT_NUMBERS.len() } else { 0 }
+                    } else {
+                        0
+                    },
                     tails: if has { tail_prefixes(self.f, self.d.unwrap()).len() * n_tails(self.tail_len) } else { n_tails(self.tail_len.min(2)) },
                     extremes: ext,
                     oversize: 3,
@@ -661,6 +668,18 @@ impl<'a> Menu<'a> {
         i -= l.wide;
         if i < l.textnum {
             let runs = digit_runs(d);
+            if i >= runs.len() * TEXT_NUMBERS.len() {
+                let value = ALL_TEXT_NUMBERS[i - runs.len() * TEXT_NUMBERS.len()].as_bytes();
+                let mut x = Vec::new();
+                let mut at = 0usize;
+                for (s, e) in &runs {
+                    x.extend_from_slice(&d[at .. *s]);
+                    x.extend_from_slice(value);
+                    at = *e;
+                }
+                x.extend_from_slice(&d[at ..]);
+                return custom(x);
+            }
             let (s, e) = runs[i / TEXT_NUMBERS.len()];
             let mut x = d[.. s].to_vec();
             x.extend_from_slice(TEXT_NUMBERS[i % TEXT_NUMBERS.len()].as_bytes());
